@@ -1,6 +1,7 @@
 package main
 
 import (
+	"fmt"
 	"reflect"
 	"sort"
 	"unsafe"
@@ -62,6 +63,7 @@ type heapInst struct {
 	live    map[*hElem]int // model: handle -> value (only looked up and counted, never iterated for output)
 	cap     int
 	pending *space.Mismatch // found while building the start state
+	start   string          // description of the start state, appended to every report
 }
 
 func newHeapInst(k cmpKind, idx, capN int) *heapInst {
@@ -69,8 +71,10 @@ func newHeapInst(k cmpKind, idx, capN int) *heapInst {
 	x.h = new(heapz.Heap[int])
 	if idx == 0 {
 		*x.h = heapz.New[int](4, x.cmp)
+		x.start = fmt.Sprintf("New(4, %s)", k)
 	} else {
 		x.pending = x.adoptInit(startSlices[idx-1])
+		x.start = fmt.Sprintf("Init(%v, %s)", startSlices[idx-1], k)
 	}
 	x.f = new(heapz.Heap[int])
 	*x.f = heapz.New[int](1, x.cmp)
@@ -150,7 +154,10 @@ func (x *heapInst) Ops() []space.Op {
 	return ops
 }
 
-func (x *heapInst) Apply(op space.Op) *space.Mismatch {
+func (x *heapInst) Apply(op space.Op) *space.Mismatch { return tag(x.start, x.apply(op)) }
+func (x *heapInst) Check() *space.Mismatch            { return tag(x.start, x.check()) }
+
+func (x *heapInst) apply(op space.Op) *space.Mismatch {
 	switch op.Name {
 	case "Push":
 		v := op.Args[0]
@@ -346,7 +353,7 @@ func (x *heapInst) Roots() []any {
 
 func (x *heapInst) Abstract() string { return abstractOf(x.k, x.values()) }
 
-func (x *heapInst) Check() *space.Mismatch {
+func (x *heapInst) check() *space.Mismatch {
 	if x.pending != nil {
 		return x.pending
 	}
